@@ -12,6 +12,6 @@ trap 'git -C /repo worktree remove --force '$WT' 2>/dev/null; rm -rf /verif/.cac
 mkdir -p /verif/.cache/seedlogs
 for P in "$@"; do
   L=/verif/.cache/seedlogs/$N-$P.log
-  (cd /verif && VERIF_ALT_REPO=$WT ./check $P --tier quick --jobs 5 > $L 2>&1); rc=$?
+  (cd /verif && VERIF_ALT_REPO=$WT ./check $P --tier quick --jobs 10 > $L 2>&1); rc=$?
   echo "$N $P exit=$rc $(grep -c '^VIOLATION' $L) violation line(s): $(grep '  violation:' $L | head -3 | cut -c1-160 | tr '\n' ';')"
 done
